@@ -699,9 +699,13 @@ int close(int fd) {
     fibershim_close = (closeFnType)dlsym(RTLD_NEXT, "close");
   }
 
-  if (fd_in_range(fd)) {
-    fiber_fd_closed(fd);
-    fd_info[fd].flags_ = 0;
+  if (!fd_in_range(fd)) {
+    return fibershim_close(fd);
   }
-  return fibershim_close(fd);
+  // wake the fibers blocked on fd and keep new ones out until it is closed
+  fiber_fd_close_begin(fd);
+  fd_info[fd].flags_ = 0;
+  const int ret = fibershim_close(fd);
+  fiber_fd_close_end(fd);
+  return ret;
 }
